@@ -48,6 +48,9 @@ var bindings = []binding{
 	{"plain", map[string]string{"a": "alice", "b": "bob", "world": "world"}, map[string]string{"USD": "USD", "EUR": "EUR"}, big.NewInt(1)},
 	{"odd-forms", map[string]string{"a": "users:001:main-x_1", "b": "b", "world": "world"}, map[string]string{"USD": "USD/2", "EUR": "COIN"}, big.NewInt(1)},
 	{"big", map[string]string{"a": "alice", "b": "bob", "world": "world"}, map[string]string{"USD": "USD", "EUR": "EUR/6"}, new(big.Int).Lsh(big.NewInt(1), 70)},
+	// account names that differ only by letter case or by which separator they use
+	{"near-names", map[string]string{"a": "users:001", "b": "users_001", "world": "world"}, map[string]string{"USD": "USD", "EUR": "EUR"}, big.NewInt(1)},
+	{"near-case", map[string]string{"a": "Bob", "b": "bob", "world": "world"}, map[string]string{"USD": "USD", "EUR": "EUR"}, big.NewInt(1)},
 	// asset names that run into the amounts when written one after the other: "EUR1"+"5" = "EUR"+"15"
 	{"glued", map[string]string{"a": "alice", "b": "bob", "world": "world"}, map[string]string{"USD": "EUR1", "EUR": "EUR"}, big.NewInt(1)},
 }
